@@ -29,6 +29,9 @@ ApplyG(ln) ==
       [] ln.ev = "GSetUpdate" -> GSetUpdate([idx |-> ln.a.set.idx, keys |-> ln.a.set.keys])
       [] ln.ev = "Heartbeat"  -> Heartbeat(LEnv(ln.a.e), ln.s.verdict = "ok")
       [] ln.ev = "ObsReq"     -> ObsReq(LEnv(ln.a.e))
+      [] ln.ev = "HeartbeatBurst" ->
+            LET after == IF ln.a.g \in DOMAIN ln.s.hb THEN ToSetG(ln.s.hb[ln.a.g]) ELSE {}
+            IN HeartbeatBurst(ln.a.g, ToSetG(ln.a.peers), ToSetG(ln.a.peers) \cap after)
       [] OTHER                -> FALSE
 
 NextResetG(i) ==
